@@ -7,7 +7,9 @@
 #include <cfloat>
 
 using P = ompl::PDF<int>;
-static const double WEIGHTS[] = {0, 1, 2, 0.1, 0.3, 1e16};
+// indices 6..9: a second alphabet of tiny weights (exp(-cost)-like values): changes far below any absolute epsilon that still matter
+// relative to the total
+static const double WEIGHTS[] = {0, 1, 2, 0.1, 0.3, 1e16, 0, 1e-17, 2e-17, 3e-18};
 
 struct Sys
 {
@@ -242,10 +244,10 @@ int main(int argc, char **argv)
     H.jobs = [](const vf::Args &a) {
         // wN = first N weights of {0,1,2,0.1,0.3,1e16}
         if (a.thorough())
-            return std::vector<std::string>{"w3-c7", "w5-c5", "w6-c5", "w6-c6"};
+            return std::vector<std::string>{"w3-c7", "w5-c5", "w6-c5", "w6-c6", "w4-c6-o6"};
         // w3-c6-o3: the three weights that are NOT exactly representable / of huge ratio, up to 6 elements (sum trees with an odd row above
         // the leaves need >= 5 elements, rounding in the partial sums needs such weights)
-        return std::vector<std::string>{"w3-c6", "w5-c4", "w6-c4", "w3-c6-o3"};
+        return std::vector<std::string>{"w3-c6", "w5-c4", "w6-c4", "w3-c6-o3", "w4-c5-o6"};
     };
     H.run = [](const std::string &job, const vf::Args &a, vf::Report &r) {
         Sys s;
@@ -258,7 +260,7 @@ int main(int argc, char **argv)
                  "every row of the private sum tree; in every state sample(r) for r in {0, 2^-64, 1-2^-53, 1, 1/2} + every cumulative boundary "
                  "and its two ulp neighbours + interval midpoints, compared with long-double prefix sums of the model; non-trivial = distinct "
                  "states with >=2 elements entered by a remove or update";
-        r.bounds["weights"] = "[0,1,2,0.1,0.3,1e16]";
+        r.bounds["weights"] = "[0,1,2,0.1,0.3,1e16,0,1e-17,2e-17,3e-18]";
         r.bounds["weights_used"] = std::to_string(s.nW);
         r.bounds["size_cap"] = std::to_string(s.cap);
         r.bounds["max_depth"] = std::to_string(bfs.maxDepth);
